@@ -6,13 +6,21 @@ import ast
 import re
 
 from ..cfg import cfg_of
-from ..core import AnalysisError, call_name, unparse, walk_no_nested
+from ..core import inline_locals, AnalysisError, call_name, unparse, walk_no_nested
 from ..packs import ecc
 from ..report import Ctx
 from ..pattern import body_is, find, find_expr, has, has_expr
 
 
+#: obligations whose failure contradicts the property (rule, construct pattern, why); every other failure is 'not recognised'
+POSITIVE: list[tuple[str, str, str]] = [
+    ('C10.R4', r':record$', 'the record interpreted from get_signature is not the one the engine parses for this tag'),
+    ('C10.R4', r'\.get_signature$', 'an id written in the record belongs to a node whose signature is not emitted before it'),
+]
+
+
 def run(ctx: Ctx) -> None:
+    ctx.positive_table = list(POSITIVE)
     prog = ctx.prog
     ctx.rule('C10.R1', 'draw table: every call of generate_draws passes (draw_types(), draws.names, n) of the same IdManager; draw_types pairs each name with the type of '
              'the expression of that same name; inside, column i is generated for the i-th name of the list, with the generator registered (native first, then user) '
@@ -28,8 +36,12 @@ def run(ctx: Ctx) -> None:
         n += 1
         m = re.fullmatch(r'(.*)\.draw_types\(\)', args[0]) if args else None
         ok = m is not None and len(args) == 3 and args[1] == f'{m.group(1)}.draws.names'
-        ctx.add('C10.R1', f'{f.qualname}:generate_draws', ok, (f.file, c.lineno),
-                f'generate_draws({", ".join(args)})' + ('' if ok else ': the types and the ordered names must come from the same id manager (draw_types(), draws.names, n)'), str(args))
+        # names derived from the dictionary of types follow the order of appearance in the formulas, not the order that defines drawId
+        inl = [unparse(inline_locals(f.node, a)) for a in c.args]
+        from_dict = len(inl) >= 2 and not ok and ('draw_types' in inl[1] or re.search(r'\.expressions\b', inl[1]) is not None)
+        ctx.add('C10.R1', f'{f.qualname}:generate_draws', ok if (ok or from_dict) else None, (f.file, c.lineno),
+                f'generate_draws({", ".join(args)})' + ('' if ok else (': the names come from a dictionary (order of appearance in the formulas); column i of the table must belong to draws.names[i], the sorted order that defines drawId'
+                                                                         if from_dict else ': the arguments are not in the expected form (draw_types(), draws.names, n)')), str(args), positive=from_dict)
     ctx.need(n >= 2, 'at least two callers of generate_draws')
     idm = prog.cls('expressions.idmanager', 'IdManager')
     dt = idm.methods['draw_types']
@@ -42,7 +54,12 @@ def run(ctx: Ctx) -> None:
         if isinstance(g.target, ast.Tuple) and unparse(g.iter) == 'self.draws.expressions.items()' and not g.ifs:
             nm, ex = (unparse(x) for x in g.target.elts)
             ok = unparse(dc.key) == nm and unparse(dc.value) == f'{ex}.drawType'
-    ctx.add('C10.R1', 'IdManager.draw_types', ok, dt, 'type of a name = drawType of the expression registered under that name' if ok else f'draw_types: {det[:120]}', det)
+    zipped = False
+    if not ok and len(rets) == 1 and isinstance(rets[0].value, ast.DictComp):
+        it_ = rets[0].value.generators[0].iter
+        zipped = isinstance(it_, ast.Call) and call_name(it_) == 'zip' and len(it_.args) == 2 and unparse(it_.args[0]).endswith('.names') and unparse(it_.args[1]).endswith('.expressions.values()')
+    ctx.add('C10.R1', 'IdManager.draw_types', ok if (ok or zipped) else None, dt, 'type of a name = drawType of the expression registered under that name' if ok else
+            (f'draw_types pairs the sorted names with the expressions in their order of appearance ({det[:100]}): a name receives the type of another variable' if zipped else f'draw_types is not in the expected form: {det[:120]}'), det, positive=zipped)
     E = prog.cls('expressions.base_expressions', 'Expression')
     dd = E.methods['dict_of_draw_types']
     ok = body_is(dd.body, '_D = self.dict_of_elementary_expression(TypeOfElementaryExpression.DRAWS)\nreturn {_N: _E.drawType for _N, _E in _D.items()}') is not None
@@ -141,7 +158,6 @@ return self.theDraws
     ok = len(loops) == 1 and len(store) == 1 and has(srg.node, f'for _K in native_random_number_generators:\n    if _K in {p}:\n        ___\n        raise ValueError(__MSG)') and c2.dominates(c2.node_of(loops[0]), c2.node_of(store[0]))
     ctx.add('C10.R3', 'Database.set_random_number_generators', ok, srg, 'a user generator cannot take the name of a native one' if ok else 'reserved names are no longer refused before the user generators are stored', 'reserved')
     # what is registered is exactly what this call received, key by key
-    from ..core import inline_locals
     from ..pattern import _parse, m_node
 
     oks = False
